@@ -111,7 +111,9 @@ def run(ctx):
             key = "body-on-204" if label == "user-204-304" else "nobody"
             ctx.violation(key, dict(detail, kind=label, status=ans.status,
                                     body_len=len(body)))
-        if bad and label != "user-204-304":     # that case: body-on-204
+        # user-204-304: a body that is sent is the known finding body-on-204;
+        # a body that is NOT sent must not be announced either
+        if bad and (label != "user-204-304" or not body):
             ctx.violation("clen-mismatch", dict(detail, kind=label, what=bad,
                                                 status=ans.status))
         return ans
@@ -229,6 +231,38 @@ def run(ctx):
                     res.add_header(spell, str(len(big)))
                 res.make_partial([(first, last)])
                 return res
+            cur["make"] = make
+            check("partial-" + kind, True,
+                  ("partial", kind, first, last, spell, uwsgi),
+                  {"range": [first, last], "declared_as": spell,
+                   "uwsgi": uwsgi}, uwsgi=uwsgi)
+            # the same representation whole, with other headers set by the
+            # handler (hop-by-hop and representation headers alike)
+            extra_hdr = rng.choice([("Transfer-Encoding", "chunked"),
+                                    ("transfer-encoding", "chunked"),
+                                    ("Trailer", "Expires"),
+                                    ("Content-Encoding", "identity"),
+                                    ("Connection", "close"),
+                                    ("Cache-Control", "no-store")])
+
+            def make(kind=kind, extra_hdr=extra_hdr):
+                if kind == "buf":
+                    res = Response(big)
+                elif kind == "gen":
+                    res = GeneratorResponse(
+                        iter([big[:7], big[7:8], big[8:40], big[40:]]),
+                        content_length=len(big))
+                elif kind == "fileobj":
+                    res = FileObjResponse(open(bigpath, "rb"))
+                else:
+                    res = FileResponse(bigpath)
+                res.add_header(*extra_hdr)
+                return res
+            cur["make"] = make
+            check("with-header-" + kind, True,
+                  ("with-header", kind, extra_hdr),
+                  {"extra_header": list(extra_hdr)})
+            continue
             cur["make"] = make
             check("partial-" + kind, True,
                   ("partial", kind, first, last, spell, uwsgi),
